@@ -29,6 +29,9 @@ LONG300 = "L" * 300
 INV_LEX = {"nm": "name", "xf": "xfile", "xd": "xdir", LONG300: "long", "bs\\..\\..\\w": "bslash", "victim": "victim",
            "pwned.txt": "pwn", "out2": "sib2", "out.bak": "sibbak", "out-evil": "sibdir", "output.txt": "sibtxt"}
 SIB = ("sib2", "sibbak", "sibdir", "sibtxt")
+INV_LEX.update({".wh...": "whdd", ".wh..": "whdot", ".wh.": "wh", ".wh..wh..opq": "whopq", ".wh.xf": "whxf", ".. ": "ddsp",
+                "...": "dots3", "nm.": "tdot"})
+TRANSFORM = ("whdd", "whdot", "wh", "whopq", "whxf", "ddsp", "dots3", "tdot")
 HEX64 = re.compile(r"^([0-9a-f]{64}|[0-9a-f]{128})$")
 FIELDS = ("ep", "segs", "lead", "trail", "unpack", "strip", "ents", "op", "h", "place", "wm", "chk", "opt", "odir", "comp", "hdr", "pos")
 DIMS_OF = {"art": ("odir", "comp", "hdr", "pos"), "tar": ("odir", "comp", "hdr"), "lnk": ("odir", "comp", "hdr"),
@@ -346,7 +349,8 @@ def run(ctx):
             for cfg, lab in (("C20_mc_s15.cfg", "switch: ManifestDelete without Validate (variant before fix 3b8373e, S15)"),
                              ("C20_mc_links.cfg", "what-if: links materialised behind a lexical guard"),
                              ("C20_mc_stripdots.cfg", "what-if: title cleaned by stripping leading ../"),
-                             ("C20_mc_sibling.cfg", "what-if: Extract guards entries with a string prefix test")):
+                             ("C20_mc_sibling.cfg", "what-if: Extract guards entries with a string prefix test"),
+                             ("C20_mc_whiteout.cfg", "what-if: Extract applies whiteout markers by stripping the prefix")):
                 r = ctx.tlc("PathSafeMC", cfg, workers=2, label=lab, allow_violation=True, timeout=600)
                 if r["violated"] != "Containment":
                     raise vlib.ToolError("%s: the model no longer shows the expected containment violation" % cfg)
@@ -395,6 +399,10 @@ def run(ctx):
 
     def short(s):
         # always run: names of <= 2 segments and every name that reaches a sibling of the designated directory
+        # ... and every name that is hostile only after a transformation (without the leading-slash duplicates)
+        if any(c in TRANSFORM for c in s["segs"]):
+            # (artifact get costs a process start: only the bare names there, the unpacked layer carries ".wh..." anyway)
+            return s["lead"] == 0 and (s["ep"] != "art" or len(s["segs"]) == 1)
         return len(s["segs"]) <= 2 or any(c in SIB for c in s["segs"])
     if ctx.thorough:
         n_art, n_tar, n_lnk, n_imp = 14000, 12000, 0, 4000
@@ -413,7 +421,8 @@ def run(ctx):
         must_have = [s for s in by["lnk"] if key(s) in subtle or (key(s) in dangerous and (len(s["ents"]) == 2 or s["ents"][0]["k"] == "hard"))]
         chains = [s for s in by["lnk"] if key(s) in dangerous and s not in must_have]
         chosen += must_have + vlib.sample(rng, chains, 250) + vlib.sample(rng, [s for s in by["lnk"] if key(s) not in dangerous], n_lnk)
-    imp_sib = [s for s in by["imp"] if any(c in SIB for c in s["segs"]) and s["lead"] == 0 and s["trail"] == 0]
+    imp_sib = [s for s in by["imp"] if s["lead"] == 0 and s["trail"] == 0 and
+               (any(c in SIB for c in s["segs"]) or (len(s["segs"]) == 1 and s["segs"][0] in TRANSFORM))]
     chosen += imp_sib + vlib.sample(rng, [s for s in by["imp"] if s not in imp_sib], n_imp)
     rng.shuffle(chosen)
     # ---- secondary dimensions (spelling of the designated directory, compression, tar header format, layer position):
